@@ -498,7 +498,14 @@ func (g *gen) stepClone(pi int) {
 	a := g.lastAnn[pj][pfx]
 	a.NextHop = 0x0a000000 | uint32(pc.Addr[3])
 	a.Communities = append([]uint32(nil), a.Communities...)
-	switch r.Intn(4) {
+	switch r.Intn(5) {
+	case 4:
+		// only the OTC attribute differs (accepted from a neighbour without a role relation)
+		o := uint32(64500 + r.Intn(3))
+		if a.OTC != nil {
+			o = *a.OTC + 1
+		}
+		a.OTC = &o
 	case 0:
 		m := uint32(7)
 		if a.MED != nil {
